@@ -459,7 +459,9 @@ def merged_case(draw):
         "radius": draw(st.floats(0.3, 1.0)),
         "lengths": [draw(st.floats(0.3, 2.0)), draw(st.floats(0.3, 2.0))],
         # aligned, a multiple of the 45 degree block pattern, or in general position
-        "twist": draw(st.one_of(st.sampled_from([0.0, math.pi / 4, math.pi / 2, math.pi, 0.3]), st.floats(0.05, 3.0))),
+        "twist": draw(st.sampled_from(["aligned", "45", "45", "general", "general"]).flatmap(
+            lambda k: st.sampled_from([0.0, math.pi / 2, math.pi]) if k == "aligned" else (
+                st.just(math.pi / 4) if k == "45" else st.floats(0.05, 3.0)))),
         "order": draw(st.sampled_from(["upstream-first", "downstream-first"])),
         "master": draw(st.sampled_from(["upstream", "downstream"])),
         "queries": draw(st.lists(st.fixed_dictionaries({"shape": st.sampled_from(["upstream", "downstream"]), "end": st.booleans(),
